@@ -55,6 +55,8 @@ TOKEN_FIELD_TYPES = FIELD_TYPES + [
     FT('DynOne', sx.tdyn([sx.tb_trait(['core', 'fmt', 'Debug'], lead=True)]), 'dyn ::core::fmt::Debug', '', ''),
     FT('DynT', sx.tdyn([sx.tb_trait([sx.seg('AsRef', ('angle', [sx.gty(T)]))]), sx.tb_trait(['Send'])]),
        'dyn AsRef<T> + Send', '', '', needs=('T',)),
+    FT('Unit', sx.ttuple([]), '()', '', ''),
+    FT('TupUnit', sx.ttuple([U8, sx.ttuple([])]), '(u8, ())', '', ''),
     FT('SelfBox', sx.tgen('Option', sx.tgen('Box', sx.tid('Self'))), 'Option<Box<Self>>', '', ''),
 ]
 
